@@ -59,7 +59,7 @@ Proof.
   induction runs as [|run runs IH]; intros bm st Hne; [right; reflexivity|].
   inversion Hne as [|? ? Hr Hne']; subst. destruct run as [|f run]; [congruence|].
   cbn [trrset_loop map run_erase rrset_loop].
-  destruct (ttls_ok f (f :: run)); cbn [negb]; [|left; reflexivity].
+  destruct (ttl_check f (f :: run)); [left; reflexivity|].
   destruct (t_type f =? rt_SOA).
   - destruct (soa_max_len <? length (f :: run))%nat; [right; reflexivity|].
     apply (IH _ (Some (upd f)) Hne').
@@ -201,7 +201,7 @@ Proof.
   - injection E as <- <-. exact Hst.
   - assert (Hin' : forall run0 r, In run0 runs -> In r run0 -> In r z) by (intros ? ? X Y; eapply Hin; [right; exact X|exact Y]).
     destruct run as [|f run]; [eapply IH; eassumption|].
-    destruct (negb (ttls_ok f (f :: run))); [discriminate|].
+    destruct (ttl_check f (f :: run)); [discriminate|].
     destruct (N.eqb_spec (t_type f) rt_SOA) as [Es|Es].
     + destruct (soa_max_len <? length (f :: run))%nat; [discriminate|].
       eapply IH; [exact Hin'| |exact E]. unfold nsec_upd, soa_ttl. cbv [ttl_is_min]. cbn [from_soa].
@@ -269,7 +269,7 @@ Proof.
   { unfold ttls_ok. cbv [rrsig_ttl_exempt]. destruct (N.eqb_spec (t_type f) 46) as [E|E]; [reflexivity|].
     cbn [orb]. apply forallb_forall. intros r Hr. apply N.eqb_eq.
     apply (Hu (f :: run) f r); [left; reflexivity|eauto|exact Hr|exact E]. }
-  rewrite Hok. cbn [negb].
+  unfold ttl_check. rewrite Hok. cbn [negb]. rewrite andb_false_r.
   destruct (t_type f =? rt_SOA).
   - destruct (soa_max_len <? length (f :: run))%nat; [right; reflexivity|].
     destruct (IH (if negb at_cut || memN (t_type f) cts then bm_add bm (t_type f) else bm) (Some (upd f)) Hu')
@@ -316,11 +316,16 @@ Proof.
 Qed.
 
 (* the witness: an A RRset with two TTLs at the apex *)
-Example nsec_mixed_ttl_panics :
-  generate_nsecs_t [[101; 120]] true
-    [ mk_trec [[101; 120]] 1 1 300 0; mk_trec [[101; 120]] 1 1 600 0; mk_trec [[101; 120]] 6 1 3600 300 ]
-  = Panic 7.
-Proof. vm_compute. reflexivity. Qed.
+Definition mixed_ttl_zone : list trec :=
+  [ mk_trec [[101; 120]] 1 1 300 0; mk_trec [[101; 120]] 1 1 600 0; mk_trec [[101; 120]] 6 1 3600 300 ].
+
+Lemma nsec_mixed_ttl_panics : rrset_new_expects_ttls = true ->
+  generate_nsecs_t [[101; 120]] true mixed_ttl_zone = Panic 7.
+Proof.
+  intros U. unfold generate_nsecs_t, mixed_ttl_zone.
+  cbn [tskip_before tgroups tgroups_from t_name name_eqb]. vm_compute tskip_before.
+  first [ discriminate U | vm_compute; reflexivity ].
+Qed.
 
 Example nsec_t_example :
   generate_nsecs_t [[101; 120]] false
@@ -329,12 +334,14 @@ Example nsec_t_example :
          mk_tnsec (mk_nsec [[97]; [101; 120]] [[101; 120]] [0; 6; 0; 0; 0; 0; 0; 3]) 300 3 ].
 Proof. vm_compute. reflexivity. Qed.
 
-Theorem nsec_mixed_ttl_rrset_panics :
-  exists apex dk z, zone_sorted (map trec_strip z) /\ generate_nsecs_t apex dk z = Panic 7.
+Theorem nsec_mixed_ttl_rrset_panics : rrset_new_expects_ttls = true ->
+  exists apex dk z, zone_sorted (map trec_strip z) /\ ~ rrset_ttls_uniform z /\ generate_nsecs_t apex dk z = Panic 7.
 Proof.
-  exists [[101; 120]], true,
-    [ mk_trec [[101; 120]] 1 1 300 0; mk_trec [[101; 120]] 1 1 600 0; mk_trec [[101; 120]] 6 1 3600 300 ].
-  split; [|exact nsec_mixed_ttl_panics].
-  unfold zone_sorted. cbn [map trec_strip t_name t_type].
-  repeat (constructor; [|repeat (constructor; [vm_compute; discriminate|]); constructor]). constructor.
+  intros U. exists [[101; 120]], true, mixed_ttl_zone.
+  split; [|split; [|exact (nsec_mixed_ttl_panics U)]].
+  - unfold zone_sorted, mixed_ttl_zone. cbn [map trec_strip t_name t_type].
+    repeat (constructor; [|repeat (constructor; [vm_compute; discriminate|]); constructor]). constructor.
+  - intros Hu. specialize (Hu (mk_trec [[101; 120]] 1 1 300 0) (mk_trec [[101; 120]] 1 1 600 0)).
+    cbn [t_name t_type t_ttl] in Hu. assert (X : 300 = 600); [|discriminate X].
+    apply Hu; [left; reflexivity|right; left; reflexivity|reflexivity|reflexivity|discriminate].
 Qed.
